@@ -1,4 +1,4 @@
-import BaoModel.Ops1
+import BaoModel.Ops2
 
 open Bao Bao.Ops
 
@@ -15,6 +15,15 @@ def dispatch (op : String) (args : List String) (impl : String) : Verdict :=
   | "plan" => opPlan args impl
   | "rplan" => opRPlan args impl
   | "pplan" => opPPlan args impl
+  | "ob" => opOb args impl
+  | "enc" => opEnc args impl
+  | "dec" => opDec args impl
+  | "decr" => opDecr args impl
+  | "encx" => opEncX args impl
+  | "decx" => opDecX args impl
+  | "baocmp" => opBaoCmp args impl
+  | "obpre" => opObPre args impl
+  | "enc2" => opEnc2 args impl
   | _ => bad s!"unknown op {op}"
 
 /-- one input line `op arg ... | impl output` → one verdict line
